@@ -7,7 +7,8 @@
 (* Input: a stylesheet as a tree.                                          *)
 (*   token  [k, v, w, id]            k: kind, v: value, w: whitespace      *)
 (*                                   before the token in the source, id    *)
-(*          [k |-> "func"|"paren"|"brack", v, a |-> Seq(token), w, id]     *)
+(*          [k |-> "func"|"paren"|"brack"|"curly", v, a |-> Seq(token),    *)
+(*           w, id]     ("curly": a {..} block standing inside a value)    *)
 (*          [k |-> "dim"|"num"|"pct", n, unit, w, id]   n: index into the  *)
 (*                                   numeric pool (spelled by the harness) *)
 (*   item   [t |-> "rule", sel, decls, id]                                 *)
@@ -30,9 +31,9 @@ EXTENDS Naturals, Sequences, FiniteSets, TLC
 (* options: [prefix : "none" | string, sign : "none" | string, host : BOOLEAN, hostIs : "none" | string,
              importSign : "none" | string] *)
 
-IsBlock(t) == t.k \in {"func", "paren", "brack"}
-Opener(t)  == CASE t.k = "func" -> [k |-> "func", v |-> t.v] [] t.k = "paren" -> [k |-> "("] [] OTHER -> [k |-> "["]
-Closer(t)  == IF t.k = "brack" THEN [k |-> "]"] ELSE [k |-> ")"]
+IsBlock(t) == t.k \in {"func", "paren", "brack", "curly"}
+Opener(t)  == CASE t.k = "func" -> [k |-> "func", v |-> t.v] [] t.k = "paren" -> [k |-> "("] [] t.k = "curly" -> [k |-> "{"] [] OTHER -> [k |-> "["]
+Closer(t)  == CASE t.k = "brack" -> [k |-> "]"] [] t.k = "curly" -> [k |-> "}"] [] OTHER -> [k |-> ")"]
 
 Out(tok, gap, prov)        == [tok |-> tok, gap |-> gap, prov |-> prov, name |-> "none", raw |-> FALSE]
 OutN(tok, gap, prov, name) == [tok |-> tok, gap |-> gap, prov |-> prov, name |-> name, raw |-> FALSE]
